@@ -105,6 +105,14 @@ func (x *Exec) globalInit(st *State, c *Cell) *Val {
 		st.cells[c] = v
 		return v
 	}
+	if isString(c.ty) {
+		if s, ok := x.w.constStringGlobal(g); ok {
+			lit := x.strLit(s)
+			v := &Val{Ty: c.ty, L: lit.L, X: lit.X}
+			st.cells[c] = v
+			return v
+		}
+	}
 	if isIface(c.ty) && x.w.sentinelGlobal(g) {
 		code := x.w.sentinelCode(g)
 		v := &Val{Ty: c.ty, L: []string{num(code)}}
@@ -255,7 +263,7 @@ func (fr *Frame) step(st *State, ins ssa.Instruction) {
 	case *ssa.Send:
 		fr.execSend(st, in)
 	case *ssa.Select:
-		x.unsupported(fr, st, in, "select")
+		fr.execSelect(st, in)
 	case *ssa.SliceToArrayPointer:
 		x.unsupported(fr, st, in, "slice to array pointer")
 	case *ssa.MultiConvert:
@@ -302,6 +310,31 @@ func (fr *Frame) reachCheck(st *State, ins ssa.Instruction) {
 		x.oblige(st, "reach", rc.Stmt+" only_if "+rc.Clause.Text, pos, g, rc.Clause.Tags, false)
 		rc.Clause.Label = "bound"
 	}
+}
+
+// execSelect: one of the ready cases is chosen nondeterministically; values
+// received are unconstrained; a send case carries the `sends` obligations.
+func (fr *Frame) execSelect(st *State, in *ssa.Select) {
+	x := fr.x
+	idx := x.vc.fresh("selidx", sInt)
+	lo := "0"
+	if !in.Blocking {
+		lo = "(- 1)"
+	}
+	x.vc.assume(tAnd(tCmp("<=", lo, idx), tCmp("<", idx, num(int64(len(in.States))))))
+	tup := in.Type().(*types.Tuple)
+	out := &Val{Ty: tup, L: []string{idx, x.vc.fresh("recvok", sBool)}}
+	for k, s := range in.States {
+		if s.Dir == types.SendOnly {
+			fr.sendCheck(st, fr.val(st, s.Send), s.Pos, tEq(idx, num(int64(k))))
+		}
+	}
+	for i := 2; i < tup.Len(); i++ {
+		r := x.freshVal("recv", tup.At(i).Type())
+		x.refFacts(st, r)
+		out.L = append(out.L, r.L...)
+	}
+	fr.set(in, out)
 }
 
 type abortExec struct{ msg string }
@@ -677,6 +710,24 @@ func (x *Exec) bitop(st *State, op token.Token, a, b *Val, rt types.Type) *Val {
 	case token.OR:
 		if bok && bn.Sign() == 0 {
 			return a
+		}
+		if aok && an.Sign() == 0 {
+			return b
+		}
+		// x | c = x + c - (x & c) for a constant with few set bits
+		for _, pr := range [][2]*Val{{a, b}, {b, a}} {
+			if mn, ok := isNumLit(pr[1].T()); ok && mn.Sign() > 0 && mn.BitLen() <= 62 {
+				nb := 0
+				for k := 0; k < mn.BitLen(); k++ {
+					if mn.Bit(k) == 1 {
+						nb++
+					}
+				}
+				if nb <= 8 {
+					and := x.bitop(st, token.AND, pr[0], pr[1], rt)
+					return mkInt(rt, tSub(tAdd(pr[0].T(), pr[1].T()), and.T()))
+				}
+			}
 		}
 		if aok && an.Sign() == 0 {
 			return b
